@@ -44,14 +44,14 @@ theorem consumed_prefix (complete : List Bytes) : ∀ (ps : List (Ev × Step)), 
     by one return) of a PREFIX of `pre`: the input of `ev` — e.g. `auth_secondary` in `_escalate`
     when the device answers `enable` with the privileged prompt — is never written. -/
 theorem input_not_typed_after_session_end {cfg : Cfg} {complete : List Bytes} (hstrict : cfg.rough = false)
-    (hret : cfg.ret = [NL]) (hc : complete ≠ []) (pre : List (Ev × Step)) (ev : Ev) (st : Step)
+    (hret : IsRet cfg.ret) (hc : complete ≠ []) (pre : List (Ev × Step)) (ev : Ev) (st : Step)
     (post : List (Ev × Step)) (extra : List Step)
     (hg : ∀ p ∈ pre ++ (ev, st) :: post, ∃ Pr Pc, GoodStep cfg complete Pr Pc p.1 p.2)
     (w : Wire) (hres : ∀ x ∈ w.avail, isHws x = true) (hheld : w.held = [])
     (hearly : ∃ e ∈ pre, e.2.isResp = false) :
     ∃ res w' rest, sendInputsInteract cfg scriptDev ((pre ++ (ev, st) :: post).map (·.1)) complete
         (w, (pre ++ (ev, st) :: post).map (·.2) ++ extra) = some (res, (w', rest)) ∧
-      ∃ done, done <+: pre ∧ w'.writes = w.writes ++ (done.map (fun p => [p.1.1, [NL]])).flatten := by
+      ∃ done, done <+: pre ∧ w'.writes = w.writes ++ (done.map (fun p => [p.1.1, cfg.ret])).flatten := by
   obtain ⟨raw, w', h1, _, _, _, h5, _⟩ :=
     interact_exact hstrict hret (pre ++ (ev, st) :: post) extra hg w hres hheld
   have hends : ∃ e ∈ pre, e.2.ends complete = true := by
